@@ -1,7 +1,7 @@
 (* AtJdn.v — Calendar::at_jdn of every calendar a user can hold returns, for every 32-bit day number,
    the date prescribed by the specification: label, day-of-year and day-of-month ordinals. *)
 From JV Require Import Sem Gen Spec SpecX.
-From JV.Proofs Require Import SpecFacts GapFacts Cal Cmp Inner Year MonthGeom Shape Month MonthSpec SpecSums Walk SpecOrd.
+From JV.Proofs Require Import SpecFacts GapFacts Cal Cmp Inner Year MonthGeom Shape Month MonthSpec SpecSums Walk SpecOrd Meq.
 Import ListNotations.
 Open Scope Z_scope.
 Ltac Zify.zify_post_hook ::= Z.to_euclidean_division_equations.
@@ -37,31 +37,48 @@ Proof.
   - unfold glabel. destruct (md_of _ _). reflexivity.
 Qed.
 
-Lemma at_jdn_tail c j y o : ValidCal c -> in_i32 j -> in_i32 y ->
+(* the tail of at_jdn, once the walk has been characterised: whatever year and ordinal expressions the code arrived at,
+   if they are the year and the ordinal of day j, the record built is the specification's *)
+Lemma at_jdn_tail c j y o : ValidCal c -> in_i32 j ->
   l_year (lbl c j) = y -> o = ordinal_of c j ->
-  (t6 <- Calendar_ordinal2ymddo (cal_of c) y o;;
-   match t6 with
-   | Ok (month, day, day_ordinal) => Ret (mkDate (cal_of c) y o month day day_ordinal j)
-   | _ => Panic
-   end) = Ret (date_of c j).
+  match ymddo_spec c y o with
+  | Ok (month, day, day_ordinal) => Ret (mkDate (cal_of c) y o month day day_ordinal j)
+  | _ => Panic
+  end = Ret (date_of c j).
 Proof.
-  intros V Hj Hy Ey ->. pose proof (ymddo_at c j V) as A. unfold date_of.
-  destruct (lbl c j) as [[y' m] d]. cbn [l_year fst] in Ey. subst y'. destruct A as [A R].
-  rewrite ordinal2ymddo_ok by (try assumption; range). cbn [bind]. rewrite A. reflexivity.
+  intros V Hj Ey ->. pose proof (ymddo_at c j V) as A. unfold date_of.
+  destruct (lbl c j) as [[y' m] d]. cbn [l_year fst] in Ey. subst y'. destruct A as [A R]. rewrite A. reflexivity.
 Qed.
+Lemma ordinal_bound c j : ValidCal c -> 1 <= ordinal_of c j <= 732.
+Proof. intros V. pose proof (ymddo_at c j V) as A. destruct (lbl c j) as [[y m] d]. apply A. Qed.
+
+(* evaluation of at_jdn under the facts of the context, whatever the shape of its text *)
+Ltac aj_norm :=
+  repeat first
+  [ progress cbn [bind andb orb negb Calendar_f_0 inner_ReformGap_f_post_reform inner_ReformGap_f_pre_reform
+                  inner_ReformGap_f_ordinal_gap_start inner_ReformGap_f_ordinal_gap inner_Date_f_year inner_Date_f_ordinal]
+  | progress cbv zeta
+  | progress autounfold with gen_new
+  | rewrite Year.gap_ok
+  | rewrite jdn2julian_ok by assumption
+  | rewrite jdn2gregorian_ok by assumption
+  | rewrite u32_sub_ok by range
+  | rewrite ordinal2ymddo_ok by (first [ assumption | exact I | range ])
+  | progress cmp_simpl ].
 
 Lemma at_jdn_julian j : in_i32 j -> Calendar_at_jdn (cal_of CJ) j = Ret (date_of CJ j).
 Proof.
-  intros Hj. unfold Calendar_at_jdn. change (Calendar_f_0 (cal_of CJ)) with inner_Calendar_Julian. cbn [orb]. cbv zeta.
-  rewrite jdn2julian_ok by exact Hj. cbn [bind]. rewrite Year.gap_ok. cbn [bind].
-  apply at_jdn_tail; [exact I|exact Hj|apply i32_year_j; exact Hj|rewrite lbl_year; reflexivity|reflexivity].
+  intros Hj. unfold Calendar_at_jdn. change (Calendar_f_0 (cal_of CJ)) with inner_Calendar_Julian.
+  pose proof (i32_year_j j Hj) as Hy. pose proof (ordinal_bound CJ j I) as OB.
+  assert (OE : ordinal_of CJ j = j - J0 (jyear j) + 1) by reflexivity. rewrite OE in OB.
+  aj_norm. apply at_jdn_tail; [exact I|exact Hj|rewrite lbl_year; reflexivity|reflexivity].
 Qed.
 Lemma at_jdn_gregorian j : in_i32 j -> Calendar_at_jdn (cal_of CG) j = Ret (date_of CG j).
 Proof.
-  intros Hj. unfold Calendar_at_jdn. change (Calendar_f_0 (cal_of CG)) with inner_Calendar_Gregorian. cbn [orb]. cbv zeta.
-  rewrite jdn2gregorian_ok by exact Hj. cbn [bind]. rewrite Year.gap_ok. cbn [bind].
-  apply at_jdn_tail; [exact I|exact Hj|apply i32_year_g; exact Hj|rewrite lbl_year; reflexivity|].
-  unfold ordinal_of. cbn [is_old old_days new_start]. lia.
+  intros Hj. unfold Calendar_at_jdn. change (Calendar_f_0 (cal_of CG)) with inner_Calendar_Gregorian.
+  pose proof (i32_year_g j Hj) as Hy. pose proof (ordinal_bound CG j I) as OB.
+  assert (OE : ordinal_of CG j = j - G0 (gyear j) + 1) by (unfold ordinal_of; cbn [is_old old_days new_start]; lia). rewrite OE in OB.
+  aj_norm. apply at_jdn_tail; [exact I|exact Hj|rewrite lbl_year; reflexivity|rewrite OE; reflexivity].
 Qed.
 
 Section Reforming.
@@ -82,29 +99,28 @@ Section Reforming.
 
   Lemma at_jdn_reforming j : in_i32 j -> Calendar_at_jdn K j = Ret (date_of (CR r) j).
   Proof.
-    intros Hj. unfold Calendar_at_jdn. unfold K at 1 2. cbn [rcal Calendar_f_0 orb]. cbv zeta. fold K.
+    intros Hj. unfold Calendar_at_jdn.
     pose proof (r_year_bounds _ _ _ _ _ _ _ GI) as [[A B] [C D]]. pose proof (py_le_qy _ _ _ _ _ _ _ GI) as PQ.
     pose proof (old_days_eq _ _ _ _ _ _ _ GI) as OD.
     assert (EK : K = cal_of (CR r)) by (symmetry; apply cal_of_CR; exact GI).
     change (Calendar_gap K) with (@Ret (option inner_ReformGap) (Some (the_gap r py pm pd qy qm qd))).
+    unfold K at 1 2. cbn [rcal Calendar_f_0]. fold K. rewrite EK. unfold the_gap.
+    pose proof (ordinal_bound (CR r) j VR) as OB.
+    pose proof (i32_year_j j Hj) as HyJ. pose proof (i32_year_g j Hj) as HyG.
     destruct (Z.ltb_spec j r) as [Old|New].
-    - rewrite jdn2julian_ok by exact Hj. cbn [bind]. unfold the_gap.
-      cbn [inner_ReformGap_f_post_reform inner_ReformGap_f_ordinal_gap_start inner_ReformGap_f_ordinal_gap inner_Date_f_year].
-      pose proof (jyear_spec j) as JS.
+    - pose proof (jyear_spec j) as JS.
       assert (YP : jyear j <= py).
       { destruct (Z.le_gt_cases (jyear j) py) as [L|G]; [exact L|exfalso].
         assert (J0 (py + 1) <= J0 (jyear j)). { destruct (Z.eq_dec (py + 1) (jyear j)) as [<-|]; [lia|]. pose proof (J0_mono (py + 1) (jyear j) ltac:(lia)). lia. }
         lia. }
-      assert (NoAdj : ((jyear j =? qy) && ((if py =? qy then r - G0 qy else 0) <? j - J0 (jyear j) + 1)) = false).
-      { destruct (Z.eqb_spec (jyear j) qy) as [E|N]; [|reflexivity]. cbn [andb].
-        assert (py = qy) by lia. replace (py =? qy) with true by lia. pose proof (same_year_gap ltac:(lia)). rewrite E. subst py. lia. }
-      rewrite NoAdj. rewrite EK.
-      apply at_jdn_tail; [exact VR|exact Hj|apply i32_year_j; exact Hj| |].
-      + rewrite lbl_year. cbn [is_old]. replace (j <? r) with true by lia. reflexivity.
-      + unfold ordinal_of. cbn [is_old]. replace (j <? r) with true by lia. reflexivity.
-    - rewrite jdn2gregorian_ok by exact Hj. cbn [bind]. unfold the_gap.
-      cbn [inner_ReformGap_f_post_reform inner_ReformGap_f_ordinal_gap_start inner_ReformGap_f_ordinal_gap inner_Date_f_year].
-      pose proof (gyear_spec j) as GS.
+      assert (OE : ordinal_of (CR r) j = j - J0 (jyear j) + 1) by (unfold ordinal_of; cbn [is_old]; replace (j <? r) with true by lia; reflexivity).
+      rewrite OE in OB.
+      (* no adjustment: a Julian-side day is never beyond the start of the ordinal gap *)
+      assert (NA : jyear j = qy -> py = qy /\ j - J0 (jyear j) + 1 <= r - G0 qy).
+      { intros E. assert (py = qy) by lia. pose proof (same_year_gap ltac:(lia)). split; [assumption|]. rewrite E. subst py. lia. }
+      destruct (Z.eqb_spec (jyear j) qy) as [E|N]; [destruct (NA E) as [E2 LE]|]; destruct (Z.eqb_spec py qy); try lia;
+        aj_norm; (apply at_jdn_tail; [exact VR|exact Hj|rewrite lbl_year; cbn [is_old]; replace (j <? r) with true by lia; reflexivity|rewrite OE; reflexivity]).
+    - pose proof (gyear_spec j) as GS.
       assert (YQ : qy <= gyear j).
       { destruct (Z.le_gt_cases qy (gyear j)) as [L|G]; [exact L|exfalso].
         assert (G0 (gyear j + 1) <= G0 qy). { destruct (Z.eq_dec (gyear j + 1) qy) as [<-|]; [lia|]. pose proof (G0_mono (gyear j + 1) qy ltac:(lia)). lia. }
@@ -118,23 +134,12 @@ Section Reforming.
         - replace (gyear j <? py) with false by lia. replace (gyear j =? py) with false by lia.
           assert (G0 (qy + 1) <= G0 (gyear j)). { destruct (Z.eq_dec (qy + 1) (gyear j)) as [<-|]; [lia|]. pose proof (G0_mono (qy + 1) (gyear j) ltac:(lia)). lia. }
           lia. }
-      destruct (Z.eqb_spec (gyear j) qy) as [E|N]; cbn [andb].
-      + assert (Adj : ((if py =? qy then r - G0 qy else 0) <? j - G0 (gyear j) + 1) = true).
-        { rewrite E. destruct (py =? qy); lia. }
-        rewrite Adj. pose proof (G0_step qy) as GSt. pose proof (ylen_bounds (gleap qy)).
-        rewrite E in *.
-        assert (SubOk : u32_sub (j - G0 qy + 1) (if py =? qy then J0 py - G0 qy else r - G0 qy)
-                        = Ret (j - G0 qy + 1 - (if py =? qy then J0 py - G0 qy else r - G0 qy))).
-        { destruct (Z.eqb_spec py qy) as [E2|N2].
-          - pose proof (same_year_gap E2). subst py. rewrite u32_sub_ok by range. reflexivity.
-          - rewrite u32_sub_ok by range. reflexivity. }
-        rewrite SubOk. cbn [bind]. rewrite EK.
-        apply at_jdn_tail; [exact VR|exact Hj|rewrite <- E; apply i32_year_g; exact Hj| |].
-        * rewrite lbl_year. cbn [is_old]. replace (j <? r) with false by lia. exact E.
-        * rewrite OrdEq. reflexivity.
-      + rewrite EK. apply at_jdn_tail; [exact VR|exact Hj|apply i32_year_g; exact Hj| |].
-        * rewrite lbl_year. cbn [is_old]. replace (j <? r) with false by lia. reflexivity.
-        * rewrite OrdEq. reflexivity.
+      pose proof (G0_step qy) as GSt. pose proof (ylen_bounds (gleap qy)).
+      aj_norm. remember (gyear j) as g eqn:Hg.
+      destruct (Z.eqb_spec g qy) as [E|N]; destruct (Z.eqb_spec py qy) as [E2|N2];
+        try (pose proof (same_year_gap E2)); try subst py;
+        try (assert (EG : G0 g = G0 qy /\ G0 (g + 1) = G0 (qy + 1)) by (rewrite E; split; reflexivity));
+        aj_norm; (apply at_jdn_tail; [exact VR|exact Hj|rewrite lbl_year; cbn [is_old]; replace (j <? r) with false by lia; rewrite <- Hg; reflexivity|rewrite OrdEq; cmp_simpl; try lia; reflexivity]).
   Qed.
 End Reforming.
 
